@@ -378,3 +378,32 @@ func zzC03_bigdir() {
 	zzAssert(uint16(e.Orientation) == o, "fields of a directory with up to 128 entries are reported")
 	zzReached("end")
 }
+
+// GPSTimeStamp written with scaled rationals (h*d/d, m*d/d, s*d/d for d in {1, 1000, 10^6, 10^7, 10^8}): the time of
+// day is 3600*h + 60*m + s whatever the scale. h, m, s are case split over their whole ranges' corner values.
+func zzC03_gpstime_N() int { return 10 }
+func zzC03_gpstime() {
+	be := zzPart()%2 == 1
+	d := []uint32{1, 1000, 1000000, 10000000, 100000000}[zzPart()/2]
+	h, m, s := zzU8("h"), zzU8("m"), zzU8("s")
+	zzAssume(h <= 23 && (m == 0 || m == 1 || m == 30 || m == 42 || m == 59) && (s == 0 || s == 15 || s == 42 || s == 59))
+	h, m, s = uint8(zzConc(uint64(h), 24)), uint8(zzConc(uint64(m), 5)), uint8(zzConc(uint64(s), 4))
+	if d == 100000000 { // numerators stay below 2^32
+		zzAssume(h <= 23 && m <= 42 && s <= 42)
+	}
+	t := zzNewTiff(26+2+12+4+24+8, be, 8)
+	t.dir(8, 1, 0)
+	t.ent(8, 0, 0x8825, 4, 1, 26)
+	t.dir(26, 1, 0)
+	t.ent(26, 0, 0x0007, 5, 3, 44)
+	t.put32(44, uint32(h)*d)
+	t.put32(48, d)
+	t.put32(52, uint32(m)*d)
+	t.put32(56, d)
+	t.put32(60, uint32(s)*d)
+	t.put32(64, d)
+	e, err := zzDecode(t.b)
+	zzAssert(err == nil, "well-formed file decodes without error")
+	zzAssert(e.GPS.time == 3600*uint32(h)+60*uint32(m)+uint32(s), "GPSTimeStamp is 3600*h + 60*m + s whatever the scale of its rationals")
+	zzReached("end")
+}
